@@ -3,7 +3,13 @@
    The checksum is abstract: any function with the chunking law (the CRC model proves it for the
    real one). A script is benign when every response is Accept n (n >= 1) or Interrupted; an
    exhausted script accepts everything, so any finite number of short writes and Interrupted
-   returns, in any order, is covered. *)
+   returns, in any order, is covered.
+   "Flushed" is sink_committed: at least one flush succeeded AND the sink accepted nothing after
+   its last successful flush (s_unflushed = 0) - every byte of the file, the 4 trailing checksum
+   bytes included, reached the sink BEFORE the flush that into_inner ends with. A buffering or
+   commit-on-flush writer therefore holds the complete file. Behind a BufWriter, additionally the
+   BufWriter's own buffer is empty. C07_flush_order_guard / C07_flush_first_refuted show that the
+   predicate fails as soon as something is written after the last flush. *)
 Require Import FstV.Base FstV.Writer FstV.proofs.WriterProofs.
 
 (* write_all (std's default loop): fuel len buf + len script + 1 can never run out, because each
@@ -30,12 +36,13 @@ Theorem C07_content : forall crc_update masked, chunk_law crc_update ->
   s_data (o_final m) = file_bytes crc_update masked calls fin /\
   Forall (fun r => to_res (st_of r) = Ok tt) (o_calls o) /\ length (o_calls o) = length calls /\
   (exists rf, o_fin o = Some rf /\ to_res (st_of rf) = Ok tt) /\
-  sink_flushed (o_final o).
+  sink_committed (o_final o).
 Proof.
   intros crc masked [Ha Hn] oracle prefill calls fin Hb.
   pose proof (sink_session_good crc masked _ _ (uncond_law crc Ha Hn) oracle prefill calls fin (forall_forall_true _) (forall_true _) Hb) as (A & B & (rf & C1 & C2 & _) & D & E & _).
   pose proof (sink_session_good crc masked _ _ (uncond_law crc Ha Hn) [] [] calls fin (forall_forall_true _) (forall_true _) (Forall_nil _)) as (_ & _ & _ & D' & _).
-  cbv zeta. unfold mem_session. rewrite D'. cbn [app]. repeat split; auto.
+  cbv zeta. unfold mem_session. rewrite D'. cbn [app].
+  split; [exact D|]. split; [reflexivity|]. split; [|split; [exact B|split; [|exact E]]].
   - eapply Forall_impl; [|exact A]. intros r ->. reflexivity.
   - exists rf. rewrite C2. auto.
 Qed.
@@ -66,12 +73,13 @@ Theorem C07_bufwriter : forall crc_update masked, chunk_law crc_update ->
   b_buf (o_final o) = [] /\
   Forall (fun r => to_res (st_of r) = Ok tt) (o_calls o) /\ length (o_calls o) = length calls /\
   (exists rf, o_fin o = Some rf /\ to_res (st_of rf) = Ok tt) /\
-  sink_flushed (b_inner (o_final o)).
+  sink_committed (b_inner (o_final o)).
 Proof.
   intros crc masked [Ha Hn] cap oracle prefill calls fin Hb.
   pose proof (buf_session_good crc masked _ _ (uncond_law crc Ha Hn) cap oracle prefill calls fin (forall_forall_true _) (forall_true _) Hb) as (A & B & (rf & C1 & C2 & _) & D & E & F & _).
   pose proof (sink_session_good crc masked _ _ (uncond_law crc Ha Hn) [] [] calls fin (forall_forall_true _) (forall_true _) (Forall_nil _)) as (_ & _ & _ & D' & _).
-  cbv zeta. unfold mem_session. rewrite D'. cbn [app]. repeat split; auto.
+  cbv zeta. unfold mem_session. rewrite D'. cbn [app].
+  split; [exact D|]. split; [exact E|]. split; [|split; [exact B|split; [|exact F]]].
   - eapply Forall_impl; [|exact A]. intros r ->. reflexivity.
   - exists rf. rewrite C2. auto.
 Qed.
@@ -91,6 +99,61 @@ Proof.
   destruct (run_calls _ _ _ _ _ _ _) as [[rs c] al]. destruct H as [H1 H2]. split; auto.
   eapply Forall_impl; [|exact H2]. intros r [_ H]. exact H.
 Qed.
+
+(* the committed predicate is not vacuous. For ANY sink that accepts writes benignly and whose flush
+   succeeds, the sequence `flush; write_all buf` (buf non-empty) succeeds, leaves the bytes in the
+   sink and the sink flushed - but NOT committed: exactly len buf bytes are pending *)
+Theorem C07_flush_order_guard : forall (s : sink) (buf : list N),
+  Forall benign (s_oracle s) -> s_fresp s = FlushOk -> buf <> [] ->
+  let s1 := snd (sink_flush s) in
+  let s2 := snd (w_write_all sink_writer s1 buf) in
+  fst (sink_flush s) = IoOk tt /\ fst (w_write_all sink_writer s1 buf) = IoOk tt /\
+  s_data s2 = s_data s ++ buf /\ sink_flushed s2 /\ s_unflushed s2 = length buf /\
+  ~ sink_committed s2.
+Proof. exact write_after_flush_not_committed. Qed.
+
+(* the hand-made session `flush; write [1;2;3;4]` *)
+Example C07_write_after_flush_example :
+  let s0 := new_sink [] FlushOk [] in
+  let s1 := snd (sink_flush s0) in
+  let s2 := snd (sink_write s1 [1; 2; 3; 4]) in
+  sink_committed s1 /\ s_data s2 = [1; 2; 3; 4] /\ sink_flushed s2 /\ s_unflushed s2 = 4%nat /\
+  ~ sink_committed s2.
+Proof. vm_compute. repeat split; auto. intros [_ H]. discriminate. Qed.
+
+(* the meaning of the counter: a write call adds exactly the bytes it made the sink accept and
+   never touches the flush count; a successful flush resets it, a failing one changes nothing *)
+Theorem C07_unflushed_counts_writes : forall s buf r s', sink_write s buf = (r, s') ->
+  (s_unflushed s' + length (s_data s) = s_unflushed s + length (s_data s'))%nat /\
+  s_flushes s' = s_flushes s.
+Proof. exact sink_write_unflushed. Qed.
+
+Theorem C07_flush_commits : forall s r s', sink_flush s = (r, s') ->
+  s_data s' = s_data s /\
+  match r with
+  | IoOk _ => s_unflushed s' = 0%nat /\ s_flushes s' = S (s_flushes s)
+  | _ => s' = s
+  end.
+Proof. exact sink_flush_unflushed. Qed.
+
+(* the seeded change C07-4, into_inner with `flush` BEFORE the checksum write
+   (Writer.run_finish_flush_first), on a concrete session with a short write and an Interrupted:
+   the real order is committed; the swapped order returns Ok with the same 11 bytes in a direct
+   sink and one successful flush, but 4 bytes pending; behind a BufWriter of capacity 8 the 4
+   bytes are still in its buffer, and pending in the sink once the BufWriter is dropped *)
+Theorem C07_flush_first_refuted :
+  let good := run_sink_session standin_update standin_masked false [Accept 2; Interrupted]%nat FlushOk []
+                               [[[1; 2; 3]]; [[4]; [5; 6]]] [[7]] in
+  let '(r, c) := flush_first_sink_session [Accept 2; Interrupted]%nat [[[1; 2; 3]]; [[4]; [5; 6]]] [[7]] in
+  let '(rb, cb) := flush_first_buf_session 8 [Accept 2; Interrupted]%nat [[[1; 2; 3]]; [[4]; [5; 6]]] [[7]] in
+  let dropped := bw_drop sink_writer (c_inner cb) in
+  (sink_committed (o_final good) /\ length (s_data (o_final good)) = 11%nat) /\
+  (r = IoOk tt /\ s_data (c_inner c) = s_data (o_final good) /\ sink_flushed (c_inner c) /\
+   s_unflushed (c_inner c) = 4%nat /\ ~ sink_committed (c_inner c)) /\
+  (rb = IoOk tt /\ length (b_buf (c_inner cb)) = 4%nat /\ ~ buf_committed (c_inner cb) /\
+   s_data (b_inner dropped) = s_data (o_final good) /\ sink_flushed (b_inner dropped) /\
+   s_unflushed (b_inner dropped) = 4%nat /\ ~ sink_committed (b_inner dropped)).
+Proof. exact flush_first_is_seen. Qed.
 
 (* the stand-in used by the extracted model satisfies the law, so the theorems apply to it *)
 Theorem C07_standin_law : chunk_law standin_update.
@@ -161,7 +224,7 @@ Theorem C07_end_to_end : forall ty rows cols ops oracle prefill,
     s_data (o_final o) = prefill ++ bs /\
     Forall (fun r => st_of r = IoOk tt) (o_calls o) /\
     (exists rf, o_fin o = Some rf /\ st_of rf = IoOk tt) /\
-    sink_flushed (o_final o) /\
+    sink_committed (o_final o) /\
     map bw_of (o_calls o) = counts_of ty rows cols ops /\
     spec_parse bs = Some p /\ p_version p = 3 /\ p_ty p = ty /\
     p_len p = len (spec_content None ops []) /\ p_content p = spec_content None ops [] /\
@@ -178,6 +241,7 @@ Theorem C07_end_to_end_bufwriter : forall ty rows cols ops cap oracle prefill,
     s_data (b_inner (o_final o)) = prefill ++ bs /\ b_buf (o_final o) = [] /\
     Forall (fun r => st_of r = IoOk tt) (o_calls o) /\
     (exists rf, o_fin o = Some rf /\ st_of rf = IoOk tt) /\
+    sink_committed (b_inner (o_final o)) /\
     map bw_of (o_calls o) = counts_of ty rows cols ops.
 Proof. intros. now apply end_to_end_buf. Qed.
 
@@ -223,13 +287,18 @@ Check C07_content : forall crc_update masked, chunk_law crc_update ->
   s_data (o_final m) = file_bytes crc_update masked calls fin /\
   Forall (fun r => to_res (st_of r) = Ok tt) (o_calls o) /\ length (o_calls o) = length calls /\
   (exists rf, o_fin o = Some rf /\ to_res (st_of rf) = Ok tt) /\
-  sink_flushed (o_final o).
+  sink_committed (o_final o).
 Print Assumptions write_all_delivers.
 Print Assumptions write_all_delivers_default.
 Print Assumptions C07_content.
 Print Assumptions C07_count.
 Print Assumptions C07_bufwriter.
 Print Assumptions C07_count_bufwriter.
+Print Assumptions C07_flush_order_guard.
+Print Assumptions C07_write_after_flush_example.
+Print Assumptions C07_unflushed_counts_writes.
+Print Assumptions C07_flush_commits.
+Print Assumptions C07_flush_first_refuted.
 Print Assumptions C07_standin_law.
 Print Assumptions C07_old_behaviour_refuted.
 Print Assumptions C07_old_behaviour_refuted_interrupted.
